@@ -108,6 +108,12 @@ def run_tool(case, cancel_at):
             # later failure propagates.  (The cancellation need not be in its __context__ chain: a source closed
             # through the aclose() of a helper generator fails while a GeneratorExit is being handled.)
             replaced = any(outcome[1] is s_.close_fault for s_ in b.srcs if getattr(s_, "close_fault", None))
+            # ... but only a failure that happened AFTER the cancellation replaces it: a cleanup that had failed
+            # before the cancellation arrived (in a later source's suspended aclose) is its context, not its successor
+            at = getattr(b.ctx, "cancel_log_index", 0)
+            faults_after = [e for e in b.ctx.log[at:] if e[0] == "close-fault"]
+            if replaced and not faults_after:
+                replaced = False
         if (outcome[0] != "raise" or outcome[1] is not cancel) and not replaced:
             raise Violation(f"C18/{tool}/cancellation-not-propagated",
                             f"cancel_at={cancel_at} outcome={outcome!r}", case=dict(case, cancel_at=cancel_at))
